@@ -325,6 +325,8 @@ def run(chk):
         "R17.5": chk.rule("R17.5", "no parameter, and no alias of one, is assigned, stepped, mutated through a member or handed to an inserter",
                           "library functions leave their inputs unmodified"),
     }
+    rules["R17.7"] = chk.rule("R17.7", "a numeric parameter is never compared with an unsigned size(): the comparison converts a negative count to a huge unsigned value",
+                              "numeric arguments including 0 and negative values behave as counts (take(v, -1) is empty, not everything)")
     found = {}
 
     def report(rid, fn, line, msg):
@@ -341,8 +343,18 @@ def run(chk):
             raise AnalysisBroken("C17: %s: %s" % (fn.name(), e))
         nloops += fn.nloops
         has_loop = fn.nloops > 0
+        pnames = {p["name"] for p in d["params"]}
+        ncmp = 0
+        for x in cp.walk([d["body"], d.get("guard")]):
+            if x.get("k") == "binop" and x["op"] in ("<", "<=", ">", ">=", "==", "!="):
+                for a, b in ((x["l"], x["r"]), (x["r"], x["l"])):
+                    if a["k"] == "id" and a["name"] in pnames and any(y.get("k") == "call" and y["f"]["k"] == "member" and y["f"]["name"] == "size" for y in cp.walk(b)):
+                        ncmp += 1
+                        report("R17.7", fn, d["line"], "parameter %s is compared with an unsigned size(): a negative %s wraps around" % (a["name"], a["name"]))
         for rid, rule in rules.items():
             if rid in ("R17.1", "R17.3", "R17.4") and not has_loop:
+                continue
+            if rid == "R17.7" and not any(x.get("k") == "binop" and x["op"] in ("<", "<=", ">", ">=", "==", "!=") for x in cp.walk([d["body"], d.get("guard")])):
                 continue
             if rid == "R17.2" and not any(n.get("k") == "call" and n["f"]["k"] == "member" and n["f"]["name"] in ("front", "back", "pop_front", "pop_back") for n in cp.walk(d["body"])):
                 continue
